@@ -503,11 +503,13 @@ def c03_jobs(tier, repo):
         return (_bj("C03", ["--n=2", "--bound=1"], "responses <=2 PDUs, 1 transport fault", 4)
                 + _bj("C03", ["--n=3", "--bound=0"], "responses <=3 PDUs", 6)
                 + _bj("C03", ["--n=4", "--small-alphabet", "--bound=0"], "responses <=4 PDUs, announce/withdraw alphabet", 6)
+                + _bj("C03", ["--n=4", "--syms=4,3,8,10,11,12,13", "--bound=0"], "responses <=4 PDUs, router-key alphabet mixed with prefixes", 4)
                 + _bj("C03", ["--bulk", "--n=2", "--bound=0"], "responses <=2 symbols incl. blocks of 100/101/201 records (PDU store growth)", 8))
     return (_bj("C03", ["--n=3", "--bound=1"], "responses <=3 PDUs, 1 transport fault", 16)
             + _bj("C03", ["--n=2", "--bound=2"], "responses <=2 PDUs, 2 transport faults", 8)
             + _bj("C03", ["--n=4", "--bound=0"], "responses <=4 PDUs", 16)
             + _bj("C03", ["--n=5", "--small-alphabet", "--bound=0"], "responses <=5 PDUs, announce/withdraw alphabet", 8)
+            + _bj("C03", ["--n=5", "--syms=4,3,8,10,11,12,13", "--bound=0"], "responses <=5 PDUs, router-key alphabet mixed with prefixes", 8)
             + _bj("C03", ["--bulk", "--n=3", "--bound=0"], "responses <=3 symbols incl. blocks of 100/101/201 records (PDU store growth)", 32))
 
 
@@ -519,7 +521,8 @@ _BYTES_NOTE = ("Direct calls of the real rtr_sync / rtr_wait_for_sync (C04, C14)
 SPECS["C04"] = CheckSpec(
     "C04", c04_jobs,
     rule="case = byte stream = optional Cache Response + 1..2 PDUs from a hostile alphabet (every type 0..11,255 x "
-         "version {0,1,2} x length field {0,7,8,exact-1,exact,exact+1,3248,3249,2^32-1}; prefix PDUs with flags "
+         "version {0,1,2} x length field {0,7,8,exact-1,exact,exact+1,3248,3249,2^32-1}; four types with length fields "
+         "3249 / 3256 / 3257 and their WHOLE promised body delivered; prefix PDUs with flags "
          "{0,1,2,255} x prefix/max length {0,1,32,33,128,129,255}^2; Error Reports with 25 nested-length pairs; router "
          "keys; three-PDU responses over a 15-symbol semantic alphabet; chains of 40/140 over-long prefixes) x 4 stream "
          "tails x both entry points; on every case a DFS over deviations at every receive call (short read at 1 / n-1 "
@@ -568,7 +571,8 @@ SPECS["C03"] = CheckSpec(
          "of present / absent IPv4, IPv6 and router-key records incl. the twin of the other source's record, flags=2, "
          "Serial Notify, Reset Query, Cache Reset, Cache Response, bad-length PDU, Error Report, wrong-version PDU) x 5 "
          "terminators (End of Data ok / foreign session, timeout, transport error, close), plus one transport fault at "
-         "every receive call of the response; a second family ('bulk') over 28 symbols adds blocks of 100 / 101 / 201 "
+         "every receive call of the response; length-4 (thorough 5) responses over the prefix symbols and over a 7-symbol "
+         "alphabet mixing the four router-key symbols with prefix symbols; a second family ('bulk') over 28 symbols adds blocks of 100 / 101 / 201 "
          "numbered IPv4 / IPv6 / router-key announcements and withdrawals of 101 held records, so that the client's "
          "temporary PDU stores (grown in steps of 100) grow zero, one and two times before the point of failure and "
          "roll-backs span several hundred records; the FSM runs on until its next query; oracle per the statement",
